@@ -215,6 +215,18 @@ func runSeeds(tier string, seed int64) {
 		emitSeed(strOfLen(r, n, true), "pw", "mlen")
 		emitSeed("abandon ability", strOfLen(r, n, n%2 == 0), "plen")
 	}
+	// the same concatenation split at different points between mnemonic and passphrase (a cache or a buffer keyed
+	// by the joined text must not confuse them), and argument pairs swapped
+	for k := 0; k < 12; k++ {
+		t := randomUnicode(r, 6+r.intn(10)) + "mnemonic" + strOfLen(r, 4+r.intn(6), true)
+		rs := []rune(t)
+		i, j := 1+r.intn(len(rs)-2), 1+r.intn(len(rs)-2)
+		emitSeed(string(rs[:i]), string(rs[i:]), "boundary")
+		emitSeed(string(rs[:j]), string(rs[j:]), "boundary")
+		emitSeed(string(rs[i:]), string(rs[:i]), "boundary")
+		emitSeed(t, "", "boundary")
+		emitSeed("", t, "boundary")
+	}
 	// large inputs (beyond any 16-bit length, buffer or chunk size), validated like the small ones
 	for _, n := range map[string][]int{"quick": {65535, 65537}, "thorough": {65535, 65536, 65537, 100000, 1 << 20}}[tier] {
 		emitSeed(strOfLen(r, n, true), "TREZOR", "large")
